@@ -16,7 +16,7 @@ from tracelib import *
 PROP = "C01"
 LEVEL = "exploration"
 FLAVOUR = "plain"
-TIERS = {"quick": (9000, 170), "thorough": (400000, 3300)}
+TIERS = {"quick": (25000, 170), "thorough": (1500000, 3300)}
 RULE_TEXT = ("one run = one generated chart (<= 10 states, depth <= 3, parallel/history/initial/final, internal/targetless/multi-target/eventless "
              "transitions, raise/send/cancel/assign/log/if content, early/late binding) in one of three datamodels x one history of <= 10 external events "
              "at seeded simulated times plus the chart's own delayed sends; every microstep is compared with the Appendix D reference model; "
@@ -75,7 +75,7 @@ def gen_plan(seed, k, engine=None, dm=None, features=None):
     ops = [{"op": "create", "i": 0, "chart": "main", "engine": engine or ENGINE}, {"op": "validate", "i": 0}]
     ops += history_ops(rp, many=(True if (root.meta or {}).get('par_bias') and rp.random() < 0.8 else None))
     return {"id": k, "seed": seed, "entropy_seed": seed & 0x7fffffff,
-            "sched": {"seed": seed & 0x7fffffff, "policy": "nonpreempt", "max_decisions": 400000}, "step_budget": 900,
+            "sched": {"seed": seed & 0x7fffffff, "policy": "nonpreempt", "max_decisions": 400000}, "step_budget": 200,
             "charts": {"main": root.xml()}, "actors": {"main": ops}}
 
 
@@ -161,6 +161,7 @@ def history_of_active_parent(xml, enabled_xpaths):
 VARIANTS = [
     ("postfix_order", "C01-transition-content-order-postfix-vs-appendix-d"),
     ("alt_after_preempt", "C01-selection-continues-after-preempted-transition"),
+    ("shared_history", "C01-history-memory-shared-between-nested-scopes"),
 ]
 
 
